@@ -36,8 +36,8 @@ def separator(rng, final=False):
     if r < 0.85:
         body = b''.join(rng.choice([b'a', b' ', b'*', b'/', b'"', b'\\', b'* /', b'//', b'/*', b'\n', b'{', b'"x"', b'\\"'] + UTF8) for _ in range(rng.randrange(0, 6)))
         body = body.replace(b'*/', b'* /')
-        if body.endswith(b'*'):
-            body += b' '
+        if body.endswith(b'*') and rng.random() < 0.3:
+            body += b' '          # otherwise the comment ends in **/ (or is /***/): still one comment
         return b'/*' + body + b'*/'
     body = b''.join(rng.choice([b'a', b' ', b'*', b'/', b'"', b'\\', b'*/', b'/*', b'\t', b'}', b'"x', b'\\"'] + UTF8) for _ in range(rng.randrange(0, 6)))
     if final and rng.random() < 0.5:
